@@ -26,6 +26,9 @@ where
 
     fn get(&mut self, key: &K) -> Option<&V>;
 
+    /// Like [MapLike::get], but without side effects (e.g. it doesn't update the LRU order).
+    fn peek(&self, key: &K) -> Option<&V>;
+
     fn remove(&mut self, key: &K) -> Option<V>;
 
     fn iter(&self) -> Self::ItemIter<'_>;
